@@ -58,6 +58,11 @@ def _make_module(tag):
 
     def hook(params):
         LOG.append(('hook', tag, params['name'], params.get('model')))
+        if tag == 'swap' and str(params['name']).startswith('pre_grp0') and params.get('model') is not None:
+            # user code installs the environment the agents are to live in just before they are created
+            from ECAgent.Core import Environment
+            mdl = params['model']
+            mdl.environment = Environment(mdl)
         if tag == 'pop':
             params.clear()
 
@@ -157,6 +162,7 @@ def run_history(h, props=None):
     _make_module('b')
     _make_module('lazy')
     _make_module('pop')
+    _make_module('swap')
     out = []
 
     class MemDecoder(Decoder):
@@ -270,6 +276,14 @@ def histories(seed, budget, prop='C18'):
                                             dict(id='s1', prio=0, pre=False, post=True, mod='pop', end=4)],
                   groups=[dict(n=2, pre=True, post=True, mod='pop'), dict(n=0, pre=True, post=True, mod='pop')])
     yield ('decode_json', [popper, popper, popper])
+    # a group hook that installs a new environment: the agents join the environment the model has when they are added
+    yield ('decode', [dict(full, groups=[dict(n=2, pre=True, post=True, mod='swap'), dict(n=1, pre=True, post=False, mod='swap')])])
+    # priorities are numbers as written (1.5 sits between 1 and 2)
+    yield ('decode_json', [dict(full, systems=[dict(id='lo', prio=1, pre=False, post=False, mod='a'),
+                                               dict(id='mid', prio=1.5, pre=False, post=False, mod='a'),
+                                               dict(id='hi', prio=2, pre=False, post=False, mod='b'),
+                                               dict(id='neg', prio=-0.5, pre=False, post=False, mod='a'),
+                                               dict(id='pos', prio=0.5, pre=True, post=False, mod='a')])])
     yield ('decode_json', [popper, dict(popper, pre=False), popper])
     for k in range(budget):
         yield ('decode_json' if k % 5 == 0 else 'decode', [_desc(rng) for _ in range(rng.randint(1, 3))])
